@@ -7,7 +7,7 @@ def core_schema(mutation=True, subscription=True):
         iface("Node", [("id", "ID!"), ("label", "String")]),
         iface("Named", [("name", "String!")]),
         obj("User", [("id", "ID!"), ("label", "String"), ("name", "String!"), ("age", "Int"), ("extId", "ID"), ("aliases", "[ID!]"), ("friend", "Node"),
-                     ("friends", "[User!]!"), ("tags", "[String]"), ("pet", "Pet"), ("role", "Role"),
+                     ("friends", "[User!]!"), ("tags", "[String]"), ("roles", "[Role!]"), ("dates", "[Date]!"), ("pet", "Pet"), ("role", "Role"),
                      ("since", "Date"), ("score", "Float"), ("active", "Boolean!"),
                      FieldDef("legacy", "String", dep=("use label",))], ["Node", "Named"]),
         # Org refines the interface's nullable `label` to non-null (legal covariance)
@@ -33,7 +33,7 @@ def core_schema(mutation=True, subscription=True):
                   FieldDef("user", "User", args=[("id", "ID!")]),
                   FieldDef("search", "[Node!]", args=[("filter", "Filter"), ("first", "Int", "1")]),
                   ("userFriend", "User"), ("version", "String!"), ("count", "Int"),
-                  ("grid", "[[Int!]]!"), ("rows", "[[String!]!]"), ("ids", "[ID]!"),
+                  ("grid", "[[Int!]]!"), ("rows", "[[String!]!]"), ("ids", "[ID]!"), ("matrix", "[[Node!]]"),
                   FieldDef("find", "Outcome", args=[("input", "search_input")]), ("outcomes", "[Outcome!]")]),
         inp("Filter", [("text", "String"), ("role", "Role"), ("ids", "[ID!]"), ("and", "Filter"),
                        ("not", "[Filter!]"), ("range", "Range!"), ("pick", "Pick")]),
@@ -103,6 +103,7 @@ def items_user():
         ("...UserA", Spread("UserA")), ("...UserB", Spread("UserB")), ("...NodeF", Spread("NodeF")),
         ("on User", Inline("User", [Field("age")])), ("on Node", Inline("Node", [Field("label")])),
         ("...UserRec", Spread("UserRec")), ("extId", Field("extId")), ("...UserX", Spread("UserX")), ("aliases", Field("aliases")),
+        ("roles", Field("roles")), ("dates", Field("dates")),
     ]
 
 
@@ -132,7 +133,7 @@ def items_root():
         ("version", Field("version")), ("count", Field("count")), ("v:version", Field("version", alias="v")),
         ("__typename", TN()), ("me", Field("me", [Field("id")])), ("node", Field("node", [TN(), Field("id")])),
         ("user", Field("user", [Field("name")], args=[("id", "$id")])), ("...QF", Spread("QF")),
-        ("on Q", Inline("Q", [Field("count")])), ("grid", Field("grid")), ("rows", Field("rows")), ("ids", Field("ids")),
+        ("on Q", Inline("Q", [Field("count")])), ("grid", Field("grid")), ("rows", Field("rows")), ("ids", Field("ids")), ("matrix", Field("matrix", [TN(), Field("id"), Inline("User", [Field("roles")])])),
         ("outcomes", Field("outcomes", [TN(), Inline("http_error", [Field("code"), Field("stamp"), Field("order")]), Inline("User", [Field("name")])])),
     ]
 
